@@ -16,3 +16,5 @@ def run(ctx):
     sc, sites, st, tst = safety.run(ctx, F, scopes.C13_ENTRIES, with_fmt=True)
     ctx.floor("R-INV", "C13 scope bodies", len(sc), 250)
     ctx.floor("R-INV", "C13 panic-capable sites", st["sites"], 120)
+    import corerules
+    corerules.recursion_arg_order(ctx, F, ["Document::build_outline_result"])
